@@ -50,6 +50,20 @@
 #define RLEN_MAX 6
 #endif
 
+#ifdef STUB_DT
+/* datatype.c is not linked in this instance: the statistics fed to the summaries are constant zeros.  The summary VALUES are not
+ * the subject here (C02), only the structure the writer builds and the reader follows; constant inputs keep the floating-point
+ * reductions out of the formula. */
+#include "jls/datatype.h"
+int32_t jls_dt_buffer_to_f64(const void * src, uint32_t src_datatype, double * dst, size_t samples) {
+    (void) src; (void) src_datatype;
+    for (size_t i = 0; i < BLOCK; ++i) {
+        if (i < samples) { dst[i] = 0.0; }
+    }
+    return 0;
+}
+#endif
+
 static struct jls_core_s cw;        /* writer core */
 static struct jls_core_s cr;        /* reader core */
 static struct jls_core_fsr_s rd_fsr[3];
